@@ -457,15 +457,20 @@ def c01_r4(ctx):
            "id() = current sub-matcher id + offset of the same index", detail=str(rets))
     ai = prog.method(mm, "all_ids", inherited=False)
     ok = False
+    seen_ = []
     for lp in ast.walk(ai.node):
-        if isinstance(lp, ast.For) and norm.canon(lp.iter) == "enumerate(self.matchers)":
-            i, mr = [norm.canon(e) for e in lp.target.elts]
-            ys = [norm.deep_canon(y.value, ai.node) for y in ast.walk(lp) if isinstance(y, ast.Yield)]
-            inner = [n for n in ast.walk(lp) if isinstance(n, ast.For) and n is not lp]
-            if inner:
-                v = norm.canon(inner[0].target)
-                ok = ys == [norm.canon(norm.parse_expr("%s + self.offsets[%s]" % (v, i)))] and \
-                    norm.canon(inner[0].iter) == "%s.all_ids()" % mr
+        if not isinstance(lp, ast.For):
+            continue
+        inner = [n for n in ast.walk(lp) if isinstance(n, ast.For) and n is not lp]
+        if not inner:
+            continue
+        # whichever way the two parallel lists are walked (enumerate + index, zip, range(len())): the ids of the sub-matcher at one
+        # position get the offset at the same position
+        v = norm.canon(inner[0].target)
+        ys = [norm.positional(lp, y.value, ai.node) for y in ast.walk(lp) if isinstance(y, ast.Yield)]
+        src = norm.positional(lp, inner[0].iter, ai.node)
+        seen_.append((src, ys))
+        ok = ys == [norm.canon(norm.parse_expr("%s + self.offsets['@']" % v)).replace("'@'", "@")] and src == "self.matchers[@].all_ids()"
     ctx.ob(ai, ok, "all_ids() adds offsets[i] of the enumerated sub-matcher i")
     sk = prog.method(mm, "skip_to", inherited=False)
     al = norm.aliases(sk.node)
